@@ -1,5 +1,7 @@
 // Kernel boundary probe: the segment geometry Erat::init computes for (start, stop, sieve size KiB)
 //   GEOM start stop kb  -> "low high bytes maxSmall maxMedium"   (start >= 7)
+//   BYTES start stop kb -> the final sieve bytes of every segment of a real Erat run
+//   DECODE bits low -> the numbers Erat::nextPrime yields for the set bits of a 64-bit word
 //   XOFF size l1 prime mi wi -> the bytes EratSmall::crossOff changes for one sieving prime, and its stored state
 #include <stdint.h>
 #include <cstddef>
@@ -17,6 +19,7 @@
 #undef private
 #undef protected
 #include "common.hpp"
+#include <primesieve.hpp>
 
 #include <primesieve/Wheel.hpp>
 template <class W> struct Rec : W {
@@ -51,6 +54,28 @@ int main()
       // Wheel::addSievingPrime unit level: "<multipleIndex> <wheelIndex>" | "none"
       if (t[0] == "ASP30") { Rec<Wheel30_t> w; w.stop_ = u64(t[1]); w.addSievingPrime(u64(t[2]), u64(t[3])); if (w.stored) std::cout << w.mi << " " << w.wi << std::endl; else std::cout << "none" << std::endl; }
       else { Rec<Wheel210_t> w; w.stop_ = u64(t[1]); w.addSievingPrime(u64(t[2]), u64(t[3])); if (w.stored) std::cout << w.mi << " " << w.wi << std::endl; else std::cout << "none" << std::endl; }
+    } else if (t.size() >= 4 && t[0] == "BYTES") {
+      // BYTES start stop kb: the real Erat run segment by segment as PrimeGenerator drives it (sieving primes > 163 added when
+      // prime <= isqrt(segmentHigh)); prints the final bytes of every segment (after preSieve, crossOff and the end masks)
+      uint64_t start = u64(t[1]), stop = u64(t[2]);
+      std::vector<uint64_t> sp; primesieve::generate_primes(isqrt(stop), &sp);
+      MemoryPool pool; Erat e; e.init(start, stop, u64(t[3]), pool);
+      std::size_t idx = 0; while (idx < sp.size() && sp[idx] <= PreSieve::getMaxPrime()) idx++;
+      std::string out;
+      while (e.hasNextSegment()) {
+        uint64_t sqrtHigh = isqrt(e.segmentHigh_);
+        while (idx < sp.size() && sp[idx] <= sqrtHigh) e.addSievingPrime(sp[idx++]);
+        e.sieveSegment();
+        for (std::size_t i = 0; i < e.sieve_.size(); i++) out += std::to_string((unsigned) e.sieve_[i]) + " ";
+      }
+      if (!out.empty()) out.pop_back();
+      std::cout << out << std::endl;
+    } else if (t.size() >= 3 && t[0] == "DECODE") {
+      // DECODE bits low: for (; bits != 0; bits &= bits - 1) print Erat::nextPrime(bits, low)
+      uint64_t bits = u64(t[1]), low = u64(t[2]); std::string out;
+      for (; bits != 0; bits &= bits - 1) out += std::to_string(Erat::nextPrime(bits, low)) + " ";
+      if (!out.empty()) out.pop_back();
+      std::cout << out << std::endl;
     } else if (t.size() >= 3 && t[0] == "PRESIEVE") {
       // PRESIEVE segmentLow size: the bytes of the sieve array after PreSieve::preSieve (capacity >= 8 as in Erat::init)
       std::size_t size = (std::size_t) u64(t[2]);
